@@ -167,7 +167,7 @@ def seq(sym, cov, ncalls, with_ttl, typed=False, floats=False, K=2, G=3, M=3, kw
     ms_none = sym.bool("maxsize.none")
     ms = sym.int("maxsize", 0, M)
     maxsize = None if ms_none else ms
-    ttl = sym.int("ttl", 1, 3) if with_ttl else None
+    ttl = sym.int("ttl", 0, 3) if with_ttl else None  # 0: every entry has expired by the time it could be reused
     keys = [sym.int("k%d" % i, 0, K) for i in range(ncalls)]
     gaps = [sym.int("g%d" % i, 0, G if with_ttl else 0) for i in range(ncalls)]
     dur = sym.int("dur", 0, 1)
